@@ -1063,7 +1063,7 @@ def gen_cases(ctx):
       yield case
   yield from counted(ctx.corpus())
   yield from counted(gen_systematic(rng))
-  n = 1500 if ctx.quick else 25000
+  n = 1200 if ctx.quick else 30000
   yield from counted(gen_random(rng) for _ in range(n))
   yield from counted(gen_malformed(rng) for _ in range(n // 9))
 
